@@ -11,6 +11,7 @@
 //!   # ...          statistics
 mod fam_readn;
 mod fam_vtime;
+mod fam_nfs;
 mod util;
 
 use std::io::Write;
@@ -20,6 +21,7 @@ use util::{Exec, Family, Rng, StepOut};
 fn families() -> Vec<Box<dyn Family>> {
     vec![
         Box::new(fam_vtime::VTimeFamily),
+        Box::new(fam_nfs::NfsFamily),
         Box::new(fam_readn::ReadNFamily),
     ]
 }
